@@ -739,9 +739,16 @@ def run(res, args):
     seen_known, reported = set(), 0
     by_class = {}
     for ln, kind, detail in suspects:
-        key = kind + ':' + (str(detail[1])[:40] if kind == 'oracle' else str(detail)[:60] if kind == 'sanitizer' else 'diff')
+        if kind == 'oracle':
+            key = 'oracle:' + str(detail[1]).split(':')[0].split(' got ')[0][:60]
+        elif kind == 'sanitizer':
+            import re as _re
+            m = _re.search(r'(AddressSanitizer: [a-zA-Z-]+|[\w./-]+\.c:\d+)', str(detail))
+            key = 'sanitizer:' + (m.group(1) if m else str(detail)[:50])
+        else:
+            key = 'diff:' + ln.split()[0]
         by_class.setdefault(key, []).append((ln, kind, detail))
-    for key, group in list(by_class.items())[:12]:
+    for key, group in list(by_class.items())[:6]:
         ln, kind, detail = min(group, key=lambda g: len(g[0]))
         if kind == 'sanitizer':
             pred = lambda j: bool(j['crash'])
@@ -765,16 +772,31 @@ def run(res, args):
             found = None
             r2 = random.Random(res.seed * 7919 + reported)
             toks = small.split()
-            for _ in range(400 if res.tier == 'quick' else 4000):
-                if toks[0] == 'BUF':
-                    cand = ' '.join(toks[:2] + [t for t in toks[2:]] + [rnd_op(r2, RefBuf(toks[1]), {}) for _ in range(r2.randint(0, 3))]
-                                    + [t for t in toks[2:]])
-                else:
-                    cand = rnd_list_history(r2, 12)
-                jj = judge(exe, env, cand)
-                if jj['crash'] or jj['oracle']:
-                    found = (cand, jj)
-                    break
+            deadline = time.time() + (20 if res.tier == 'quick' else 150)
+            while found is None and time.time() < deadline:
+                cands = []
+                for _ in range(400):
+                    if toks[0] == 'BUF':
+                        ref = RefBuf(toks[1])
+                        ops = list(toks[2:])
+                        for o in ops:
+                            if not ref.excluded(o):
+                                ref.apply(o)
+                        for _ in range(r2.randint(1, 6)):
+                            o = rnd_op(r2, ref, {})
+                            ops.append(o)
+                            if not ref.excluded(o):
+                                ref.apply(o)
+                        cands.append(' '.join(toks[:2] + ops))
+                    else:
+                        cands.append(small + ' ' + ' '.join(rnd_list_history(r2, 8).split()[1:]))
+                impl2, crashes2 = run_harness(exe, env, cands)
+                crashed2 = {k for k, _ in crashes2}
+                for k, cnd in enumerate(cands):
+                    bad = k in crashed2 or (check_buf_line(cnd, impl2[k]) if cnd.startswith('BUF') else check_list_line(cnd, impl2[k]))
+                    if bad:
+                        found = (cnd, judge(exe, env, cnd))
+                        break
             if found:
                 cand, jj = found
                 small2 = shrink(exe, env, cand, lambda q: bool(q['crash'] or q['oracle']))
